@@ -2,7 +2,10 @@ module vh
 
 go 1.23.0
 
-require github.com/folbricht/desync v0.0.0
+require (
+	github.com/folbricht/desync v0.0.0
+	github.com/hanwen/go-fuse/v2 v2.2.0
+)
 
 require (
 	cloud.google.com/go v0.110.0 // indirect
@@ -18,7 +21,6 @@ require (
 	github.com/google/uuid v1.3.0 // indirect
 	github.com/googleapis/enterprise-certificate-proxy v0.2.3 // indirect
 	github.com/googleapis/gax-go/v2 v2.8.0 // indirect
-	github.com/hanwen/go-fuse/v2 v2.2.0 // indirect
 	github.com/json-iterator/go v1.1.12 // indirect
 	github.com/klauspost/compress v1.16.4 // indirect
 	github.com/klauspost/cpuid/v2 v2.0.4 // indirect
